@@ -322,6 +322,13 @@ func (m *Metadata) Validate(data map[string]any, currentVersion ...string) Valid
 		case "object":
 			// if it's an object, we need to recurse
 			if _, ok := v.(map[string]any); ok {
+				if len(v.(map[string]any)) == 0 {
+					// e.g. a rule's "Sampler: {}": names no downstream sampler, the factory can only exit
+					results = append(results, ValidationResult{
+						Message:  fmt.Sprintf("field %s must not be empty", k),
+						Severity: Error,
+					})
+				}
 				subresults := m.Validate(v.(map[string]any), currentVersion...)
 				for _, result := range subresults {
 					results = append(results, ValidationResult{
@@ -644,11 +651,26 @@ func (m *Metadata) ValidateRules(data map[string]any) ValidationResults {
 			} else {
 				foundDefault := false
 				for k, v := range samplers {
-					if _, ok := v.(map[string]any); !ok {
+					if sm, ok := v.(map[string]any); !ok {
 						results = append(results, ValidationResult{
 							Message:  fmt.Sprintf("Sampler %s must be a map, but %v is %T", k, v, v),
 							Severity: Error,
 						})
+					} else if len(sm) == 0 {
+						// names no sampler: the sampler factory can only exit when it is first needed
+						results = append(results, ValidationResult{
+							Message:  fmt.Sprintf("Sampler %s must specify a sampler", k),
+							Severity: Error,
+						})
+					} else {
+						for name, body := range sm {
+							if body == nil {
+								results = append(results, ValidationResult{
+									Message:  fmt.Sprintf("Within sampler %s: %s must not be null", k, name),
+									Severity: Error,
+								})
+							}
+						}
 					}
 					if k == "__default__" {
 						foundDefault = true
